@@ -82,9 +82,22 @@ def seeded_variants(prop):
     return out
 
 
+def refactoring_variants(prop):
+    '''behaviour-preserving refactorings written by independent sub-agents (/verif/refactored): every check must stay silent'''
+    import glob
+    out = []
+    base = os.path.join(os.path.dirname(HERE), 'refactored')
+    for d in sorted(glob.glob(os.path.join(base, '*'))):
+        pp = os.path.join(d, 'patch.diff')
+        if os.path.exists(pp):
+            out.append(dict(id='refactoring-' + os.path.basename(d), prop=prop, patch=pp, expect='silent', rule='',
+                            what='behaviour-preserving refactoring'))
+    return out
+
+
 def run_for(prop, jobs=16):
     from .selftest_variants import VARIANTS
-    vs = [v for v in VARIANTS if v['prop'] == prop] + seeded_variants(prop)
+    vs = [v for v in VARIANTS if v['prop'] == prop] + seeded_variants(prop) + refactoring_variants(prop)
     with concurrent.futures.ThreadPoolExecutor(max_workers=jobs) as ex:
         return list(ex.map(run_variant, vs))
 
